@@ -55,7 +55,8 @@ constexpr auto binary_interval_search(std::ranges::random_access_range auto && r
   while (left + 1 < rght) {
     double alpha = 0.5;
     if constexpr (std::is_convertible_v<Rv, double> && std::is_convertible_v<T, double>) {
-      alpha = (static_cast<double>(t) - static_cast<double>(*left)) / static_cast<double>(*(rght - 1) - *left);
+      alpha = (static_cast<double>(t) - static_cast<double>(*left))
+            / (static_cast<double>(*(rght - 1)) - static_cast<double>(*left));
     }
     const auto dist = static_cast<double>(std::distance(left, rght - 1));
     pivot           = std::ranges::next(left, static_cast<std::intptr_t>(alpha * dist), rght - 2);
